@@ -655,6 +655,48 @@ pub fn skeletons() -> Vec<Skeleton> {
     v
 }
 
+/// Hand-built combinations that the deviation-bounded sweeps reach only at deviation 3: systems
+/// whose constraints create dead ends (states all of whose successors violate a constraint), with
+/// bad states before, at and after the dead end.
+pub fn dead_end_extras() -> Vec<SysSpec> {
+    let mut out = vec![];
+    let k1 = skeleton("K1");
+    let a = || s("a2", 2);
+    let i = || s("b2", 2);
+    let nexts = [b(Bin::Add, a(), l(2, 1)), b(Bin::Add, a(), b(Bin::And, i(), l(2, 1))), T::ite(b(Bin::Eq, i(), l(2, 0)), a(), b(Bin::Add, a(), l(2, 1)))];
+    let cons = [b(Bin::Ugt, l(2, 3), a()), b(Bin::Ugt, l(2, 2), a()), T::not(b(Bin::Eq, a(), l(2, 3))), b(Bin::Implies, b(Bin::Eq, a(), l(2, 2)), b(Bin::Eq, i(), l(2, 1)))];
+    let bads = [b(Bin::Eq, a(), l(2, 2)), b(Bin::Eq, a(), l(2, 1)), b(Bin::And, b(Bin::Eq, a(), l(2, 2)), b(Bin::Eq, i(), l(2, 1))), b(Bin::Eq, a(), l(2, 3))];
+    for n in nexts.iter() {
+        for c in cons.iter() {
+            for bd in bads.iter() {
+                let mut sp = k1.base.clone();
+                sp.states[0].next = Some(n.clone());
+                sp.constraints = vec![c.clone()];
+                sp.bads = vec![bd.clone()];
+                sp.name = "K1-deadend".into();
+                out.push(sp);
+            }
+        }
+    }
+    // two-state variant: the toggle decides whether the counter may move; the constraint kills the
+    // state after the bad one
+    let k2 = skeleton("K2");
+    let t = || s("a1", 1);
+    let c = || s("a2", 2);
+    for con in [b(Bin::Ugt, l(2, 2), c()), b(Bin::Implies, t(), b(Bin::Ugt, l(2, 2), c()))] {
+        for bd in [b(Bin::Eq, c(), l(2, 1)), b(Bin::And, t(), b(Bin::Eq, c(), l(2, 1)))] {
+            let mut sp = k2.base.clone();
+            sp.states[0].next = Some(T::not(t()));
+            sp.states[1].next = Some(b(Bin::Add, c(), T::ZExt(1, Box::new(t()))));
+            sp.constraints = vec![con.clone()];
+            sp.bads = vec![bd.clone()];
+            sp.name = "K2-deadend".into();
+            out.push(sp);
+        }
+    }
+    out
+}
+
 pub fn skeleton(name: &str) -> Skeleton {
     skeletons().into_iter().find(|k| k.name == name).unwrap_or_else(|| panic!("no skeleton {name}"))
 }
